@@ -31,6 +31,8 @@ func main() {
 		engine.WorkerMain(os.Args[2], os.Args[3])
 	case "replay":
 		os.Exit(engine.ReplayMain(os.Args[2]))
+	case "racepass":
+		os.Exit(props.RacePass())
 	case "list":
 		for _, id := range engine.IDs() {
 			fmt.Println(id)
